@@ -14,9 +14,37 @@
 #include <string>
 #include <type_traits>
 
+#include <csignal>
+#include <dlfcn.h>
+
 using namespace vf;
 
+// the case being executed, reported as a FAIL line (= concrete failing input) if a sanitizer or a signal kills the run
+static std::string g_current;
+static void reportCurrent() { printf("FAIL C17 aborted (sanitizer report / signal) while running: %s\n", g_current.c_str()); fflush(stdout); }
+static void onSignal(int sig) { reportCurrent(); _Exit(1); }
+static void installCrashReporter() {
+	// g++ links libasan and libubsan as two runtimes, each with its own death callback: register with every one loaded
+	typedef void (*SetCallback)(void (*)(void));
+	for (const char* lib : { "libasan.so.8", "libasan.so.6", "libasan.so.5", "libubsan.so.1", "libtsan.so.2" })
+		if (void* h = dlopen(lib, RTLD_NOLOAD | RTLD_NOW))
+			if (SetCallback set = (SetCallback)dlsym(h, "__sanitizer_set_death_callback")) set(reportCurrent);
+	std::signal(SIGSEGV, onSignal); std::signal(SIGABRT, onSignal); std::signal(SIGFPE, onSignal);
+}
+
 static uint64_t lcgNext(uint64_t x) { return x * 6364136223846793005ull + 1442695040888963407ull; }
+
+// log of the iterSwapper calls: number of calls and an order-sensitive checksum of the (index1, index2) pairs
+struct SwapLog { uint64_t n = 0, chk = 0; };
+template<typename Iterator>
+struct TraceSwapper {
+	Iterator begin; SwapLog* log;
+	void operator()(Iterator a, Iterator b) const {
+		log->n++;
+		log->chk = log->chk * 1000003ull + (uint64_t)(a - begin) * 65537ull + (uint64_t)(b - begin) + 1;
+		std::iter_swap(a, b);
+	}
+};
 
 template<typename U> struct Rec { U code; uint32_t id; };
 template<typename U> struct RecGetter { U operator()(const Rec<U>* it) const noexcept { return it->code; } };
@@ -30,10 +58,11 @@ static std::string codesStr(const std::vector<uint64_t>& v, size_t maxn = 48) {
 
 // runs the real sorter on `codes` (already masked to W bits); returns the ids in final order
 template<size_t R, typename U, bool asPointer>
-static std::vector<uint32_t> sortBoth(Ctx& c, const std::vector<uint64_t>& codes, unsigned W, const char* what)
+static std::vector<uint32_t> sortBoth(Ctx& c, const std::vector<uint64_t>& codes, unsigned W, const char* what, SwapLog& log)
 {
 	typedef momo::internal::RadixSorter<R> Sorter;
 	size_t n = codes.size();
+	g_current = fmt("RadixSorter<%zu> on %s (%u-bit) %s codes=", R, asPointer ? "pointers" : "integers", W, what) + codesStr(codes);
 	// (a) native array
 	{
 		typedef typename std::conditional<asPointer, const char*, U>::type Native;
@@ -56,7 +85,7 @@ static std::vector<uint32_t> sortBoth(Ctx& c, const std::vector<uint64_t>& codes
 	// (b) records with a custom code getter
 	std::vector<Rec<U>> recs; recs.reserve(n);
 	for (size_t i = 0; i < n; ++i) recs.push_back(Rec<U>{ (U)codes[i], (uint32_t)i });
-	Sorter::Sort(recs.data(), n, RecGetter<U>());
+	Sorter::Sort(recs.data(), n, RecGetter<U>(), TraceSwapper<Rec<U>*>{ recs.data(), &log }, [] (Rec<U>*, size_t) noexcept {});
 	std::vector<uint32_t> ids; ids.reserve(n);
 	std::vector<bool> seen(n, false);
 	bool perm = true, sorted = true;
@@ -103,11 +132,14 @@ static void runOne(Ctx& c, Rng& rng, Suite& s)
 			case 5: what = "biased"; for (auto& x : codes) x = rng.biased(W) & mask; break;
 			default: what = "two-clusters"; for (auto& x : codes) x = (rng.chance(1, 2) ? rng.below(5) : mask - rng.below(5)) & mask; break;
 			}
-			std::vector<uint32_t> ids = sortBoth<R, U, asPointer>(c, codes, W, what);
+			SwapLog log;
+			std::vector<uint32_t> ids = sortBoth<R, U, asPointer>(c, codes, W, what, log);
 			std::string line = fmt("rs %zu %u", R, W), res;
 			for (uint64_t x : codes) line += fmt(" %llu", (unsigned long long)x);
 			for (size_t i = 0; i < ids.size(); ++i) res += fmt(i ? " %u" : "%u", ids[i]);
+			res += fmt(" ; %llu %llu", (unsigned long long)log.n, (unsigned long long)log.chk);
 			s.op(line); s.res(res);
+			c.stats.count("radix.swaps", log.n);
 			if (n > selMax) c.stats.count("radix.counting_pass"); else if (n > 2) c.stats.count("radix.selection_sort"); else c.stats.count("radix.tiny");
 			if (n >= 3 && dist != 2) c.stats.nontrivial(fmt("%s/R%zu/%s/%zu/%llu", tname, R, what, n, (unsigned long long)base));
 			if (R == 8 && W == 64 && n == 5 && dist == 0) c.stats.sample("radix " + line + " -> ids " + res);
@@ -121,9 +153,11 @@ static void runOne(Ctx& c, Rng& rng, Suite& s)
 		uint64_t seed = rng.next() >> 1, x = seed;
 		std::vector<uint64_t> codes(n);
 		for (auto& v : codes) { x = lcgNext(x); uint64_t hi = x >> 32; x = lcgNext(x); uint64_t lo = x >> 32; v = ((hi << 32) | lo) & maskW(bits); }
-		std::vector<uint32_t> ids = sortBoth<R, U, asPointer>(c, codes, W, "generated");
+		SwapLog log;
+		std::vector<uint32_t> ids = sortBoth<R, U, asPointer>(c, codes, W, "generated", log);
 		s.op(fmt("rgen %zu %u %zu %llu %u", R, W, n, (unsigned long long)seed, bits));
-		s.res(fmt("%zu %llu", n, (unsigned long long)chkIds(ids)));
+		s.res(fmt("%zu %llu ; %llu %llu", n, (unsigned long long)chkIds(ids), (unsigned long long)log.n, (unsigned long long)log.chk));
+		c.stats.count("radix.swaps", log.n);
 		c.stats.count("radix.generated");
 		c.stats.nontrivial(fmt("%s/R%zu/gen/%zu/%llu/%u", tname, R, n, (unsigned long long)seed, bits));
 	}
@@ -149,6 +183,7 @@ static void runR(Ctx& c, Rng& rng, Suite& s)
 int main(int argc, char** argv)
 {
 	Ctx c = parseArgs(argc, argv);
+	installCrashReporter();
 	Rng rng(c.seed * 0x1000 + 0x117 + 0x100 * (C17_RGROUP + 1));
 	Suite s(c, "radix", "model sort");
 #if C17_RGROUP == -1 || C17_RGROUP == 0
